@@ -25,5 +25,5 @@ for prop in "$@"; do
     echo "MISSED $prop $(basename "$patch") (exit $code): $(tail -1 "$out/log" | cut -c1-150)"; rc=1
   fi
 done
-rm -rf "$base"
+rm -rf "$base" "/verif/bin/alt-$(echo "$base/repo" | cksum | cut -d' ' -f1)"
 exit $rc
